@@ -34,6 +34,12 @@ static int (*pick_cmp(Cmd *c))(const void *, const void *) {
 }
 
 /* ---- observation through the public API ---- */
+/* The observer must not disturb the object: it uses iterators, size, get_first, get_last only.  The cross-check
+   "get_at at every index agrees with the traversal" (both walking directions of get_node_at) performs lookups, and a
+   lookup may legitimately leave state behind in the list (a cursor cache); doing it after every operation would hide
+   any defect in such state.  It is therefore tied to one operation of the vocabulary: it runs for the slot on which
+   `foreach` was just executed, and only then. */
+static int sweep_slot = -1;
 static void obs_slot(int k) {
     CC_List *l = L[k];
     static unsigned long long fw[WLIMIT];
@@ -50,8 +56,7 @@ static void obs_slot(int k) {
     void *f = NULL;
     if (cc_list_get_first(l, &f) == CC_OK) o(" first%d=%llu", k, VAL(f)); else o(" first%d=-", k);
     if (cc_list_get_last(l, &f) == CC_OK) o(" last%d=%llu", k, VAL(f)); else o(" last%d=-", k);
-    /* get_at at every index must agree with the traversal (both walking directions of get_node_at) */
-    for (size_t j = 0; j < n; j++) {
+    if (k == sweep_slot) for (size_t j = 0; j < n; j++) {
         void *g = NULL;
         if (cc_list_get_at(l, j, &g) != CC_OK || VAL(g) != fw[j]) { o(" GETAT%d=mismatch@%zu", k, j); break; }
     }
@@ -60,6 +65,7 @@ static void obs_all(void) {
     int any = 0;
     for (int k = 0; k < NSLOT; k++) if (L[k]) { if (any) o(" "); obs_slot(k); any = 1; }
     if (!any) o("none");
+    sweep_slot = -1;
 }
 
 /* ---- private state + heap walkers ---- */
@@ -217,7 +223,7 @@ static void do_op(Cmd *c) {
             if (block_size(arr) < cc_list_size(l) * sizeof(void *)) o(" WALK=array-block");
             if (ledger_find(&L_conf, arr) >= 0) conf_free(arr); else free(arr); }   /* the harness (caller) releases the array through its owner */
         o(" ");
-    } else if (is_op(c, "foreach")) { cc_list_foreach(l, cb_record); o("st=- "); o_cb(); o(" ");
+    } else if (is_op(c, "foreach")) { cc_list_foreach(l, cb_record); o("st=- "); o_cb(); o(" "); sweep_slot = k;
     } else if (is_op(c, "reduce")) { red_acc = 0; enum cc_stat st = cc_list_reduce(l, red_fn, &red_acc);
         o_stat(st); if (st == CC_OK) o(" out=%llu", (unsigned long long)red_acc); o(" "); o_cb(); o(" ");
     } else if (is_op(c, "filter_mut")) { o_stat(cc_list_filter_mut(l, pred_even)); o(" ");
